@@ -537,7 +537,9 @@ class MarkdownNormalizer(Renderer):
         # Drop only the newline that ends the last line: blank lines at the end of the code
         # are content.
         code_content = code_child.children.removesuffix("\n")
-        lang = element.lang if isinstance(element, block.FencedCode) else ""
+        # The parser removes backslash escapes from the language word (not from the rest of
+        # the info string): put back the ones that would be read as escapes again.
+        lang = _escape_backslashes(element.lang) if isinstance(element, block.FencedCode) else ""
         extra = element.extra if isinstance(element, block.FencedCode) else ""
         extra_text = f" {extra}" if extra else ""
         lang_text = f"{lang}{extra_text}" if lang else ""
